@@ -168,6 +168,7 @@ typedef struct ColumnSlashTable {
   d;				/* d == data */
   unsigned short int nocols;	/* number of columns in table *sigh* */
   pad_info_t *pad;
+  char *owned;			/* the text is a temporary made for this entry (%O, a 0 for %s): freed with it */
   unsigned int start;		/* starting cursor position */
   unsigned int size;		/* column/table width */
   unsigned int remainder;	/* extra space needed to fill out to width */
@@ -729,6 +730,8 @@ static int add_column (cst ** column, int trailing) {
       temp = col->next;
       if (col->pad)
         FREE (col->pad);
+      if (col->owned)
+        FREE_MSTR (col->owned);
       FREE (col);
       *column = temp;
       return ret;
@@ -782,6 +785,8 @@ static int add_table (cst ** table) {
       temp = tab->next;
       if (tab->pad)
         FREE (tab->pad);
+      if (tab->owned)
+        FREE_MSTR (tab->owned);
       if (tab_d)
         FREE (tab_d);
       FREE (tab);
@@ -863,6 +868,8 @@ char* string_print_formatted (char *format_str, int argc, svalue_t * argv) {
       cst *next = csts->next;
       if (!(csts->info & INFO_COLS) && csts->d.tab)
         FREE (csts->d.tab);
+      if (csts->owned)
+        FREE_MSTR (csts->owned);
       FREE (csts);
       csts = next;
     }
@@ -1172,6 +1179,14 @@ char* string_print_formatted (char *format_str, int argc, svalue_t * argv) {
                             ALLOCATE (cst, TAG_TEMPORARY, "string_print: 3");
                           (*temp)->next = 0;
                           (*temp)->d.col = carg->u.string;
+                          /* a column is printed over several lines: it keeps the temporary
+                           * made for %O (or for a 0) until its last line is out */
+                          (*temp)->owned = 0;
+                          if (carg == &clean)
+                            {
+                              (*temp)->owned = clean.u.string;
+                              clean.type = T_NUMBER;
+                            }
                           (*temp)->pad = make_pad (&pad);
                           (*temp)->size = fs;
                           (*temp)->pres = (pres) ? pres : fs;
@@ -1196,6 +1211,12 @@ char* string_print_formatted (char *format_str, int argc, svalue_t * argv) {
 
                           (*temp) = ALLOCATE (cst, TAG_TEMPORARY, "string_print: 4");
                           (*temp)->d.tab = 0;
+                          (*temp)->owned = 0;	/* see the column case */
+                          if (carg == &clean)
+                            {
+                              (*temp)->owned = clean.u.string;
+                              clean.type = T_NUMBER;
+                            }
                           (*temp)->pad = make_pad (&pad);
                           (*temp)->info = finfo;
                           (*temp)->start = get_curpos ();
